@@ -46,6 +46,8 @@ class Filt(Harness):
                     out.append(dict(K=K, filter_size=fs, kinds="all"))
             for fs in (0, 2, 3):
                 out.append(dict(K=5, filter_size=fs, kinds="fin-nan"))
+        if prop == "C02":      # only the identity clauses: small histories suffice
+            out = [s for s in out if s["K"] <= (2 if tier == "quick" else 3)]
         return out
 
     def run(self, ctx, shape):
